@@ -1146,6 +1146,13 @@ STATE_SWITCH:
                     if (data[pos] == CR) {
                         // We have a CR byte.
 
+                        // A CR set aside at the end of the previous input chunk was not
+                        // followed by a LF, and so it is part data; release it.
+                        if (parser->cr_aside) {
+                            parser->handle_data(parser, (unsigned char *) &"\r", 1, /* not a line */ 0);
+                            parser->cr_aside = 0;
+                        }
+
                         // Is this CR the last byte in the input buffer?
                         if (pos + 1 == len) {
                             // We have CR as the last byte in input. We are going to process
